@@ -2,4 +2,4 @@
 # selftest/seeded_all.sh [tier] — re-confirm every filed seeded change against the current checks; writes selftest/seeded_results.jsonl
 cd "$(dirname "$0")/.."
 TIER="${1:-quick}"
-ls -d seeded/C*/ | xargs -P 4 -I{} bash -c 'd={}; p=$(basename $d | cut -d- -f1); ./selftest/seeded.sh $d x $p '"$TIER"' 2>/dev/null | sed "s#\"change\":\"[^\"]*\"#\"change\":\"$(basename $d)\"#"' | tee selftest/seeded_results_$TIER.jsonl
+ls -d seeded/C*/ | xargs -P 4 -I{} bash -c 'd={}; p=$(basename $d | cut -d- -f1); x=$(python3 -c "import json,sys; print(\" \".join(json.load(open(sys.argv[1]+\"meta.json\")).get(\"extra_checks\",[])))" $d); ./selftest/seeded.sh $d x $p '"$TIER"' $x 2>/dev/null | sed "s#\"change\":\"[^\"]*\"#\"change\":\"$(basename $d)\"#"' | tee selftest/seeded_results_$TIER.jsonl
